@@ -108,8 +108,11 @@ theorem lazy_minus_sem (l r : Src) (hl : l.HintOk) (hr : r.HintOk) (cl : Canon l
 /-- `not(s)` = complement in `[0, n_cells_max)`. -/
 theorem lazy_not_sem (ub : Nat) (hub : 0 < ub) (s : Src) (cs : Canon s.items) (hb : BoundedBy ub s.items) :
     (notSrc ub s).depth = s.depth ∧ Canon (notSrc ub s).items ∧
-    ∀ x, mem x (notSrc ub s).items ↔ x < ub ∧ ¬ mem x s.items :=
-  ⟨rfl, (complement_spec ub s.items hub cs hb).1, (complement_spec ub s.items hub cs hb).2⟩
+    ∀ x, mem x (notSrc ub s).items ↔ x < ub ∧ ¬ mem x s.items := by
+  have hi : (notSrc ub s).items = complement ub s.items := by unfold notSrc; split <;> rfl
+  have hd : (notSrc ub s).depth = s.depth := by unfold notSrc; split <;> rfl
+  rw [hi]
+  exact ⟨hd, (complement_spec ub s.items hub cs hb).1, (complement_spec ub s.items hub cs hb).2⟩
 
 /-- `degrade(s, new_depth)` with `new_depth < depth`: the stream equals the eager `degraded`. -/
 theorem lazy_degrade_sem (sh nd : Nat) (s : Src) (cs : Canon s.items) (hnd : nd < s.depth) :
